@@ -650,7 +650,7 @@ Proof.
     | (intros c0 Hc0 Hn; apply in_set_conn in Hc0; destruct Hc0 as (c1 & Hc1 & ->); destruct (Nat.eqb (ct_id c1) id) eqn:E1; [discriminate|apply in_remove_nat; split; [exact (i_live s I c1 Hc1 Hn)|apply Nat.eqb_neq; exact E1]]) ].
 Qed.
 
-Lemma inv_admit id s s' : Inv s -> lstep s (LAdmit id) = Some s' -> Inv s'.
+Lemma inv_enter id s s' : Inv s -> lstep s (LEnter id) = Some s' -> Inv s'.
 Proof.
   intros I H. cbn [lstep] in H. destruct (find_conn id (conns s)) as [c|] eqn:FC; try discriminate.
   destruct (ct_st c) eqn:St; try discriminate. inversion H; subst; clear H.
